@@ -126,13 +126,13 @@ def run_network(check, net, per_class):
 			ser = impl_ser(obj)
 			exprs.append(f'case_ser {net.coq_schema} "{name}" {codec.coq_value(tree)}')
 			expected.append(ser)
-			meta.append(('ser', name, codec.render(tree)))
+			meta.append(('ser', name, codec.render(tree), codec.tree_to_json(tree)))
 			check.case(f'{net.name}:bytes', (name, codec.render(tree)))
 			# renderings of the value and of the decoded value
 			text = impl_text(net, obj)
 			exprs.append(f'case_text {net.coq_schema} "{name}" {codec.coq_value(tree)}')
 			expected.append(text)
-			meta.append(('text', name, codec.render(tree)))
+			meta.append(('text', name, codec.render(tree), codec.tree_to_json(tree)))
 			check.case(f'{net.name}:text', (name, codec.render(tree)))
 			json_result = limited(obj.to_json)
 			if json_result[0] == 'ok' and codec.kind(model) == 'Struct':
@@ -145,7 +145,7 @@ def run_network(check, net, per_class):
 				des_text, decoded = impl_des(net, name, data)
 				exprs.append(f'case_des {net.coq_schema} "{name}" {blit(data)}')
 				expected.append(des_text)
-				meta.append(('des', name, data.hex()))
+				meta.append(('des', name, data.hex(), data.hex()))
 				check.case(f'{net.name}:decode', (name, data.hex()))
 				if decoded is not None:
 					decoded_text = impl_text(net, decoded[0])
@@ -157,6 +157,14 @@ def run_network(check, net, per_class):
 	for impl_text_, model_text, info in zip(expected, models, meta):
 		if coarse(impl_text_) != coarse(model_text):
 			check.disagree(f'Layout-vs-{net.module.__name__}', {'op': info[0], 'class': info[1], 'input': info[2][:500]}, impl_text_[:700], model_text[:700])
+			# the schema interpreter IS the reading of the schema the layout laws of Props/C02.v are proved for: a codec that answers
+			# differently on an input does not produce / accept / show what the schema prescribes for that input
+			what = {'ser': 'encodes a value to bytes (or a size) other than', 'des': 'decodes bytes to something other than',
+				'text': 'renders a value (JSON / text) other than'}[info[0]]
+			check.fail(signature(f'layout-differs-{info[0]}', info[1], info[2]),
+				f'{net.name}.{info[1]}: the codec {what} what the schema prescribes: {impl_text_[:160]} vs {model_text[:160]}',
+				{'network': net.name, 'class': info[1], 'op': info[0], 'input': info[3], 'shown': info[2][:600],
+					'implementation': impl_text_, 'schema_prescribes': model_text})
 	for expr, text in list(zip(exprs, expected))[1::max(1, len(exprs) // 3)][:3]:
 		check.sample({'model_case': expr[:300], 'implementation': text[:400]})
 
@@ -183,5 +191,21 @@ def run(check, unrecognised):
 
 
 def replay(data):
-	print('replay data:', {k: str(v)[:400] for k, v in data['replay'].items()})
-	return 1
+	"""Re-runs the recorded input on the implementation of the current tree; for `layout-differs-*` replays the answer is compared with
+	what the schema interpreter prescribed when the replay was written (recorded in the file)."""
+	record = data['replay']
+	print('replay data:', {k: str(v)[:400] for k, v in record.items()})
+	if 'op' not in record or 'schema_prescribes' not in record:
+		return 1
+	codec.setup_paths()
+	net = codec.load_net(record['network'])
+	if record['op'] == 'des':
+		observed, _ = impl_des(net, record['class'], bytes.fromhex(record['input']))
+	else:
+		obj = codec.to_object(net, record['class'], codec.tree_from_json(record['input']))
+		observed = impl_ser(obj) if record['op'] == 'ser' else impl_text(net, obj)
+	print('implementation now:', observed[:400])
+	print('schema prescribes :', record['schema_prescribes'][:400])
+	differs = coarse(observed) != coarse(record['schema_prescribes'])
+	print('property:', 'VIOLATED (the codec differs from the schema semantics on this input)' if differs else 'holds')
+	return 1 if differs else 0
